@@ -110,6 +110,7 @@ func siteKey(site string) string {
 type raceScenario struct {
 	name string
 	body func()
+	deep bool
 }
 
 // raceScenarios: concurrent use the API permits, each with a default-schedule
@@ -145,7 +146,7 @@ func raceScenarios() []raceScenario {
 			t.w.Svr.Publish(m)
 		})
 		vsched.Quiesce()
-	}})
+	}, false})
 	// (ii) retained replace || subscribe
 	out = append(out, raceScenario{"retained-replace || subscribe", func() {
 		t := newTD()
@@ -160,7 +161,7 @@ func raceScenarios() []raceScenario {
 		p.rc.Conn.Write(refcodec.Encode(&refcodec.Packet{Type: refcodec.PUBLISH, Topic: []byte("r"), Retain: true, QoS: 1, ID: 2, Payload: []byte("new")}))
 		s.rc.Conn.Write(refcodec.Encode(&refcodec.Packet{Type: refcodec.SUBSCRIBE, ID: 5, Topics: [][]byte{[]byte("r")}, QoSs: []byte{1}}))
 		vsched.Quiesce()
-	}})
+	}, true})
 	// (iii) teardown of a subscriber || fan-out to it
 	out = append(out, raceScenario{"subscriber-teardown || fan-out", func() {
 		t := newTD()
@@ -175,7 +176,7 @@ func raceScenarios() []raceScenario {
 		s.rc.Cut()
 		p.rc.Conn.Write(refcodec.Encode(&refcodec.Packet{Type: refcodec.PUBLISH, Topic: []byte("f"), QoS: 0, Payload: []byte("m2")}))
 		vsched.Quiesce()
-	}})
+	}, true})
 	// (iv) two publishers to one subscriber (shared outgoing ring) with acks flowing back
 	out = append(out, raceScenario{"two publishers -> one subscriber with acks", func() {
 		t := newTD()
@@ -198,7 +199,7 @@ func raceScenarios() []raceScenario {
 			}
 		}
 		vsched.Quiesce()
-	}})
+	}, false})
 	// (vii) two goroutines call Server.Publish / Server.Subscribe concurrently
 	out = append(out, raceScenario{"concurrent in-process Publish x2 + Subscribe", func() {
 		t := newTD()
@@ -220,7 +221,7 @@ func raceScenarios() []raceScenario {
 			h.W.Svr.Subscribe("pa", 1, &f)
 		})
 		vsched.Quiesce()
-	}})
+	}, false})
 	// (vi) back-to-back large publishes: the publisher's incoming ring wraps while the
 	// first message is still being fanned out
 	out = append(out, raceScenario{"ring wraps during fan-out", func() {
@@ -238,7 +239,7 @@ func raceScenarios() []raceScenario {
 		}
 		p.rc.Conn.Write(wire)
 		vsched.Quiesce()
-	}})
+	}, false})
 	// (v) server close || traffic
 	out = append(out, raceScenario{"Server.Close || publish", func() {
 		t := newTD()
@@ -252,7 +253,7 @@ func raceScenarios() []raceScenario {
 		p.rc.Conn.Write(refcodec.Encode(&refcodec.Packet{Type: refcodec.PUBLISH, Topic: []byte("h"), Payload: []byte("bye")}))
 		vsched.Go("closer", func() { t.w.Svr.Close() })
 		vsched.Quiesce()
-	}})
+	}, false})
 	return out
 }
 
@@ -303,6 +304,10 @@ func C18(c *core.Ctx) {
 				return explore.Verdict{Violation: "data race between " + siteKey(sites[0]) + " and " + siteKey(sites[1]), Outcome: "race"}
 			}
 			return explore.Verdict{Outcome: "clean"}
+		}
+		dev := dev
+		if sc.deep && dev < 2 {
+			dev = 2 // small scenarios are searched one deviation deeper already in the quick tier
 		}
 		st := c.RunSchedRace(explore.SchedOpts{Name: sc.name, Bound: -1, DevBound: dev, Cache: true, UseMark: true, Body: sc.body, MaxPoints: 100000, Check: check, Shard: c.Shard, NShards: c.NShards},
 			func(v *explore.Violation) (string, string) {
